@@ -23,7 +23,10 @@ SEGS = ['a', 'b', 'index.html', '.', '..', '%2e', '%2E%2E', '%2e%2e', '%2F', '%2
         '%E2%80%A5', '%EF%BC%8F', '%E2%80%A4', '%EF%BC%8E', '%EF%B9%92', '\u2025', '\uff0f', 'a%EF%BC%8Fb', '%E2%80%A4%E2%80%A4',
         '%EF%BC%8E%EF%BC%8E', '%EF%BC%BC', '..%EF%BC%8F',
         # a control character as the very last / very first character of an otherwise plain name
-        'notes%0A', 'readme.txt%0A', 'a%0a', '%0Aa', 'a%0D', 'plain-name_1.0%0A', 'a%09', 'a%1F']
+        'notes%0A', 'readme.txt%0A', 'a%0a', '%0Aa', 'a%0D', 'plain-name_1.0%0A', 'a%09', 'a%1F',
+        # names that are templates for a string formatter (a numbered second copy is derived from the first name)
+        '..{0.__truediv__.__doc__[11]}x', '{0.__doc__[19]}', '{0}', '{}', '{0!r}', 'a{0:>20}b', '%7B0%7D', '{0.__class__}', '%(x)s', '%s', '%d',
+        '$HOME', '${HOME}', '~root', '`id`', '$(id)']
 QUERIES = ['', '', '', 'a=1', 'p=/etc/passwd', 'x=../../y', 'q=a%2Fb', 'q=%2e%2e', 'a=1&b=2', 'x=' + 'y' * 400, 'é=ü', '/', '..',
            'q=a\\b']
 DISPOSITIONS = [None, None, 'attachment; filename=report.pdf', 'attachment; filename="a b.txt"', 'attachment; filename=../../evil',
@@ -176,41 +179,43 @@ def run_case(case, part):
         except Exception as e:
             part.count('exceptions_instead_of_path')
             part.count('exception_{}_{}'.format(type(e).__name__, 'windows' if 'windows' in restrict else 'unix'))
-        # 2. the writer session (creates the file)
-        try:
-            ws = writer.session()
-            if info.scheme == 'ftp':
-                request = FTPRequest(case['url'])
-                response = FTPResponse()
-            else:
-                request = HTTPRequest(case['url'])
-                response = HTTPResponse(200, 'OK')
-                if case.get('disposition'):
-                    response.fields['Content-Disposition'] = case['disposition']
-                response.fields['Content-Type'] = 'text/html'
-            response.request = request
-            ws.process_request(request)
-            ws.process_response(response)
-            chosen = ws._filename
-            if chosen:
-                part.count('writer_session_names')
-                ok = judge_path(chosen, prefix, restrict, part, replay,
-                                'writer+content-disposition' if case.get('disposition') and
-                                '--content-disposition' in case['options'] else 'writer')
-                if response.body:
-                    response.body.close()
-                if ok and os.path.exists(chosen):
-                    part.count('files_created_inside_prefix')
-        except Exception as e:
-            part.count('exceptions_instead_of_path')
-            part.count('exception_{}_{}'.format(type(e).__name__, 'windows' if 'windows' in restrict else 'unix'))
-            # the name may already have been chosen when opening it failed (e.g. it names a directory): judge it too
-            chosen = getattr(ws, '_filename', None) if 'ws' in locals() else None
-            if chosen:
-                part.count('names_judged_although_open_failed')
-                judge_path(chosen, prefix, restrict, part, replay,
-                           'writer+content-disposition' if case.get('disposition') and
-                           '--content-disposition' in case['options'] else 'writer')
+        # 2. the writer session (creates the file); then the same URL once more, now that the file exists (numbered copies,
+        #    continuation and timestamp logic look at the existing name)
+        for attempt in (1, 2):
+          try:
+              ws = writer.session()
+              if info.scheme == 'ftp':
+                  request = FTPRequest(case['url'])
+                  response = FTPResponse()
+              else:
+                  request = HTTPRequest(case['url'])
+                  response = HTTPResponse(200, 'OK')
+                  if case.get('disposition'):
+                      response.fields['Content-Disposition'] = case['disposition']
+                  response.fields['Content-Type'] = 'text/html'
+              response.request = request
+              ws.process_request(request)
+              ws.process_response(response)
+              chosen = ws._filename
+              if chosen:
+                  part.count('writer_session_names')
+                  ok = judge_path(chosen, prefix, restrict, part, replay,
+                                  'writer+content-disposition' if case.get('disposition') and
+                                  '--content-disposition' in case['options'] else 'writer')
+                  if response.body:
+                      response.body.close()
+                  if ok and os.path.exists(chosen):
+                      part.count('files_created_inside_prefix')
+          except Exception as e:
+              part.count('exceptions_instead_of_path')
+              part.count('exception_{}_{}'.format(type(e).__name__, 'windows' if 'windows' in restrict else 'unix'))
+              # the name may already have been chosen when opening it failed (e.g. it names a directory): judge it too
+              chosen = getattr(ws, '_filename', None) if 'ws' in locals() else None
+              if chosen:
+                  part.count('names_judged_although_open_failed')
+                  judge_path(chosen, prefix, restrict, part, replay,
+                             'writer+content-disposition' if case.get('disposition') and
+                             '--content-disposition' in case['options'] else 'writer')
         # 3. nothing may have been created outside the prefix (attempts outside the scratch area are stopped and recorded by
         #    the write guard of the worker process; attempts elsewhere inside it show up in the walk below)
         try:
